@@ -1428,7 +1428,7 @@ class CanUnprotect(BaseSecurityContext):
             raise replay_error
 
         if unprotected_message.code.is_request():
-            if protected_message.opt.observe != 0:
+            if protected_message.opt.observe is None:
                 unprotected_message.opt.observe = None
         else:
             if protected_message.opt.observe is not None:
